@@ -167,6 +167,28 @@ class LambdaV(V):  # a lambda expression, only ever handed to an extern contract
     node: object
 
 
+def _ite_chain(i, vals):
+    """vals[i] for a short list of expressions (value of the last element beyond the end)"""
+    e = vals[-1]
+    for k in range(len(vals) - 2, -1, -1):
+        e = z3.If(i == k, vals[k], e)
+    return e
+
+
+def _select_indices(e, out=None, seen=None):
+    """index arguments of every array select inside e"""
+    out = [] if out is None else out
+    seen = set() if seen is None else seen
+    if e.get_id() in seen:
+        return out
+    seen.add(e.get_id())
+    if z3.is_select(e) and e.arg(1).sort() == I and not z3.is_int_value(e.arg(1)):
+        out.append(e.arg(1))
+    for c in e.children():
+        _select_indices(c, out, seen)
+    return out
+
+
 def const_bytes(data: bytes) -> BytesV:
     def at(i, data=data):
         e = z3.IntVal(0)
@@ -629,12 +651,21 @@ class Engine:
         elif isinstance(lv, (IntV, BoolV)) and isinstance(rv, (IntV, BoolV)):
             inner = self.as_int(lv, st, n) == self.as_int(rv, st, n)
         elif isinstance(lv, BytesV) and isinstance(rv, BytesV):
-            rn_ = z3.simplify(rv.n)
-            if z3.is_int_value(rn_):
-                k = rn_.as_long()
-                inner = z3.And(lv.n == k, *[lv.at(z3.IntVal(i)) == rv.at(z3.IntVal(i)) for i in range(k)])
+            rn_, ln_ = z3.simplify(rv.n), z3.simplify(lv.n)
+            if z3.is_int_value(rn_) or z3.is_int_value(ln_):
+                k = rn_.as_long() if z3.is_int_value(rn_) else ln_.as_long()
+                inner = z3.And(lv.n == k, rv.n == k, *[lv.at(z3.IntVal(i)) == rv.at(z3.IntVal(i)) for i in range(k)])
             else:
-                raise Unsupported(f"== on symbolic-length bytes@{n.lineno}")
+                # both lengths symbolic: a fresh Boolean defined by the quantified equality, with a Skolem witness for the negative case
+                inner = fresh("beq", B)
+                w = fresh("beq_w")
+                kq = z3.Int("k")
+                st.hyps.append(z3.Implies(inner, lv.n == rv.n))
+                st.hyps.append(z3.ForAll([kq], z3.Implies(z3.And(inner, 0 <= kq, kq < lv.n), lv.at(kq) == rv.at(kq))))  # quantifier kept at top level for the instantiation stages
+                st.hyps.append(z3.Implies(z3.Not(inner), z3.Or(lv.n != rv.n, z3.And(0 <= w, w < lv.n, lv.at(w) != rv.at(w)))))
+                st.anchor(w, cls="byte")
+                for side in (lv.at(w), rv.at(w)):  # the array positions the witness touches are instantiation anchors too
+                    st.anchor(*[z3.simplify(ix) for ix in _select_indices(side)][:8], cls="byte")
         elif isinstance(lv, StrV) and isinstance(rv, StrV):
             inner = z3.BoolVal(lv.s == rv.s)
         elif isinstance(lv, ObjV) and isinstance(rv, ObjV):
@@ -841,10 +872,12 @@ class Engine:
 
     def ev_Call(self, n, st):
         f = self.ev(n.func, st)
-        if any(k.arg is None for k in n.keywords) or any(isinstance(a, ast.Starred) for a in n.args):
-            raise Unsupported(f"*args/**kwargs call@{n.lineno}")
+        if any(isinstance(a, ast.Starred) for a in n.args) or sum(1 for k in n.keywords if k.arg is None) > 1:
+            raise Unsupported(f"*args call@{n.lineno}")
+        if any(k.arg is None for k in n.keywords) and not (isinstance(f, BoundMethod) and isinstance(f.recv, ObjV)):
+            raise Unsupported(f"**kwargs call on something that is not a contracted method@{n.lineno}")
         args = [self.ev(a, st) for a in n.args]
-        kwargs = {k.arg: self.ev(k.value, st) for k in n.keywords}
+        kwargs = {(k.arg if k.arg is not None else "__starstar__"): self.ev(k.value, st) for k in n.keywords}  # f(**d) reaches the callee contract as __starstar__=d
         if isinstance(f, FuncRef):
             r = self.call_builtin(f.name, args, st, n) if not kwargs else None
             if r is not None:
@@ -879,7 +912,11 @@ class Engine:
             if isinstance(recv, OpaqueV):
                 return OpaqueV(recv.tag + "()")
             if isinstance(recv, BytesV) and f.name == "decode":
-                return OpaqueV("str")
+                if self.allow_exc != "*" and "UnicodeDecodeError" in (self.allow_exc or ()):
+                    self.may_raise("UnicodeDecodeError", st, fresh("decodable", B), n)
+                o = OpaqueV("str")
+                o.memo[("decoded_from",)] = recv  # ghost: which bytes this text was decoded from
+                return o
             if isinstance(recv, ListV) and f.name == "append":
                 tgt = n.func.value
                 if not isinstance(tgt, ast.Name):
@@ -948,6 +985,11 @@ class Engine:
             return BoolV(self.truthy(args[0]))
         if name == "int" and len(args) == 1 and isinstance(args[0], (IntV, BoolV)):
             return IntV(self.as_int(args[0], st, n))
+        if name == "bytes" and len(args) == 1 and isinstance(args[0], TupleV) and all(isinstance(v, IntV) for v in args[0].items):
+            # bytes([a, b, ..]): ValueError unless every element is in range(256)
+            vals = [v.e for v in args[0].items]
+            self.may_raise("ValueError", st, z3.And(*[z3.And(v >= 0, v <= 255) for v in vals]), n)
+            return BytesV(z3.IntVal(len(vals)), lambda i, vals=vals: _ite_chain(i, vals))
         return None
 
     # ---- file handles: ghost position, short reads at EOF
